@@ -320,10 +320,22 @@ class _Patch:
 
 def sym_setup(vm, job):
     coinselection.Random = StubRandom        # module global read by the interpreted CoinSelector.__init__
+    if job.get('family') == 'sql':
+        from harness import C14
+        C14.sym_setup(vm, job)
 
 
 def native_setup(nvm, job):
+    if job.get('family') == 'sql':
+        from harness import C14
+        return C14.native_setup(nvm, job)
     return _Patch()
+
+
+def spend_sql_job(vm, n_utxo, strategies):
+    """Selection over the real wallet database (harness/spend_sql.py): the `sqlite` strategy, which the other jobs cannot reach."""
+    from harness import spend_sql
+    return spend_sql.spend(vm, n_utxo, strategies)
 
 
 STRATEGIES = [None, 'prefer_confirmed', 'only_confirmed', 'branch_and_bound', 'closest_match', 'random_draw']
@@ -370,6 +382,12 @@ def jobs(tier):
     for k in ((0, 1, 2) if tier == 'quick' else (0, 1, 2, 3)):
         out.append(dict(name=f'no-outputs-{k}utxo', family='no-outputs', fn='no_outputs', args=(k, None), loop_bound=200,
                         max_depth=60, cost=8 ** k, bounds=dict(utxos=k, preset_inputs=1, outputs=0)))
+    out.append(dict(name='real-db-sqlite-strategy-3utxo', family='sql', fn='spend_sql_job', args=(3, ('sqlite',)), loop_bound=2000, max_depth=80,
+                    cost=3000, bounds=dict(database='real sqlite3, real schema, filled by the real sync code', utxos=3,
+                                           utxo_amounts='50000 / 10^6 / 10^8 dewies (band edges of the sqlite chooser)',
+                                           payments='60000 / 10^8 - 20000 / 1.5 * 10^8', strategy='sqlite',
+                                           builds='2 selections in sequence, optionally a re-sync in between, then a release'),
+                    must_reach=('ok', 'ok-both-funded')))
     return out
 
 
